@@ -1,7 +1,9 @@
 """C09 — lifecycle (operon_ai/state/telomere.py): legal transitions only, Hayflick
 bound, absorbing end states, no hang."""
 import ast
+import contextlib
 import datetime as _dt
+import io
 import itertools
 
 from . import common
@@ -196,7 +198,7 @@ class C09(Check):
     PID = "C09"
     HEADER = "From Verif Require Import C09.Model."
     RUN = "run_case"
-    N_QUICK = 900
+    N_QUICK = 1400
     N_THOROUGH = 20000
     RULE = ("configurations max_operations 1..12, error_threshold 1..4, renewal on/off, lifetime limit off/3..30 s, idle limit "
             "off/2..10 s (integer seconds, read back from the constructed object in microseconds); histories of 1..12 calls "
@@ -205,6 +207,14 @@ class C09(Check):
             "cost/amount, max_operations 0, threshold 0). Exhaustive over a 10-call alphabet (start, tick(1), record_error, heartbeat, "
             "check_timeouts, renew(), trigger_apoptosis, terminate, reset, advance 5 s), every call observed: all histories of depth "
             "<=3 on 2 small configurations (quick); plus all of depth 5 (alphabet without heartbeat) on one and of depth 4 on two more configurations (thorough). "
+            "Driving variations (invisible to the model, every observation must stay what the model predicts): 35% of the generated "
+            "cases run with silent=False (stdout captured), 15% without on_phase_change (transition stream read from get_events()), "
+            "50% with a recording on_senescence callback, 50% use the argument defaults (tick(), renew(), trigger_apoptosis(), silent); "
+            "50% have read-only accessor calls (get_status, get_statistics, get_phase, is_active, is_operational, get_age, "
+            "get_events) interleaved, which are stripped from the model's input; 4% have a zero time limit (= none). 12% are depletion "
+            "walks: max_operations 10..12 (and 15..1000), ticks that bring the length to just above / exactly / just below 10% and 20% "
+            "of max_operations with the length still positive, then renew/tick around it. 2 histories per quick run (thorough: "
+            "0.1%) log more than 1000 lifecycle events (event-log cap). "
             "non-trivial = at least one phase transition; "
             "distinct by case content")
     LEVEL_TEXT = ("Coq theorems over all configurations, all states / all histories (no bound on length) about a hand-written "
@@ -227,7 +237,9 @@ class C09(Check):
                "back from the object (microseconds) and compared with the model's configuration on every case",
                "float classifiers: theorems hold for every classifier; the executed model uses PrimFloat (binary64) division and "
                "comparison, integer->float conversion exact below 2^53 (generated magnitudes < 2^20)",
-               "event log (_events), _created_at/_terminated_at, get_status().health_score/time_remaining are not modelled"]
+               "event log (_events), _created_at/_terminated_at, get_status().health_score/time_remaining are not modelled; "
+               "the read-only accessors and the console output are exercised (they must return, raise nothing and leave every "
+               "later observation as the model predicts without them) but their results are not compared with a model"]
     ASSUMPTIONS = ["tick costs and renewal amounts are non-negative integers; max_operations >= 0 (theorems about ranges, "
                    "Hayflick and every-call-returns); the remaining theorems hold for all integers",
                    "reset starts a new lifecycle (documented 'for testing'): absorption of TERMINATED is demanded for every other call",
@@ -315,9 +327,106 @@ class C09(Check):
             return ["reset"]
         return ["adv", rng.choice([0, 1, 2, 2, 3, 5, 5, 10])]
 
+    # read-only accessors of Telomere; they are transparent: stripped from the model's input (coq_case), no
+    # observation row of their own, and every later observation must be what the model predicts without them
+    ACCESSORS = ["status", "status", "stats", "phase", "active", "operational", "age", "events", "events3"]
+
+    def _rand_drive(self, rng, nops):
+        """How the object is driven (not part of the configuration the model sees): console output on/off, which of the
+        optional callbacks are supplied, argument defaults used where the arguments equal them."""
+        d = {}
+        if rng.random() < 0.35:
+            d["silent"] = False
+        if rng.random() < 0.15:
+            d["cb_phase"] = False       # no on_phase_change: the transition stream is read from the event log
+        if rng.random() < 0.5:
+            d["cb_sen"] = True          # a recording on_senescence callback
+        if rng.random() < 0.5:
+            d["defaults"] = True        # tick() / renew() / trigger_apoptosis() without arguments where equal
+        return d
+
+    def _with_accessors(self, rng, ops, p=0.25):
+        out = []
+        for o in ops:
+            while rng.random() < p:
+                out.append(["q", rng.choice(self.ACCESSORS)])
+            out.append(o)
+        while rng.random() < p:
+            out.append(["q", rng.choice(self.ACCESSORS)])
+        return out
+
+    def _deplete_case(self, rng):
+        """Walk the remaining length to just above / exactly at / just below the 10% (senescence) and 20% (warning)
+        ratios while the length is still positive: needs max_operations >= 10 and enough ticks."""
+        m = rng.choice([10, 10, 11, 12, 12, 12, 15, 19, 20, 21, 25, 30, 40, 50, 100, 1000])
+        cfg = self._rand_cfg(rng)
+        cfg["max_ops"] = m
+        if rng.random() < 0.6:
+            cfg["life_s"] = cfg["idle_s"] = None
+        tenth, fifth = m // 10, m // 5
+        target = max(0, rng.choice([tenth, tenth, tenth, tenth + 1, tenth + 1, tenth - 1, fifth, fifth + 1, 1, 2]))
+        spend = m - min(target, m)
+        ops = [["start"]] if rng.random() < 0.5 else []
+        if m <= 12 and rng.random() < 0.6:
+            ticks = [1] * spend                         # unit ticks (the Hayflick count runs along)
+        else:
+            ticks, left = [], spend
+            for _ in range(rng.randint(0, 3)):
+                c = rng.randint(0, left)
+                ticks.append(c)
+                left -= c
+            ticks.append(left)
+        for c in ticks:
+            ops.append(["tick", c])
+            if rng.random() < 0.08:
+                ops.append(rng.choice([["hb"], ["check"], ["adv", 1], ["renew", 1, False]]))
+        for _ in range(rng.randint(0, 5)):
+            k = rng.random()
+            ops.append(["tick", rng.choice([0, 1, 1, 1, 2])] if k < 0.5 else
+                       ["renew", rng.choice([None, 0, 1, 2, tenth + 1, fifth + 1]), rng.random() < 0.5] if k < 0.8 else
+                       self._rand_op(rng, False, cfg))
+        return {"cfg": cfg, "ops": ops}
+
+    def _long_case(self, rng):
+        """A history that logs more than 1000 lifecycle events (the event log keeps the last 1000): every record_error
+        and every accepted renew logs at least one event."""
+        cfg = self._rand_cfg(rng)
+        cfg["renew"] = True
+        ops, logged = [["start"]], 0
+        while logged < 1040:
+            k = rng.random()
+            if k < 0.40:
+                ops.append(["err"]); logged += 1
+            elif k < 0.72:
+                ops.append(["renew", rng.choice([None, None, 1, 2, 5]), rng.random() < 0.7]); logged += 1
+            elif k < 0.90:
+                ops.append(["tick", rng.choice([1, 1, 1, 0, 2])])
+            elif k < 0.94:
+                ops.append(["check"])
+            elif k < 0.97:
+                ops.append(["adv", rng.choice([0, 1, 2, 5])])
+            elif k < 0.985:
+                ops.append(["hb"])
+            else:
+                ops.append(["q", rng.choice(self.ACCESSORS)])
+        for _ in range(rng.randint(3, 12)):              # ... and carry on beyond the cap, possibly to the end states
+            ops.append(self._rand_op(rng, False, cfg))
+        return {"cfg": cfg, "ops": ops, "drive": {"cb_sen": rng.random() < 0.5, "defaults": rng.random() < 0.5}}
+
     def gen_cases(self, rng, n):
         out = []
-        for _ in range(n):
+        n_long = 2 if n <= 4000 else n // 1000
+        for j in range(n):
+            if j >= n - n_long:
+                out.append(self._long_case(rng))     # (last: a first disagreement is then reported on a short case)
+                continue
+            if rng.random() < 0.12:
+                case = self._deplete_case(rng)
+                if rng.random() < 0.4:
+                    case["ops"] = self._with_accessors(rng, case["ops"], 0.1)
+                case["drive"] = self._rand_drive(rng, len(case["ops"]))
+                out.append(case)
+                continue
             cfg = self._rand_cfg(rng)
             malformed = rng.random() < 0.03
             if malformed:
@@ -325,12 +434,16 @@ class C09(Check):
                     cfg["max_ops"] = 0
                 if rng.random() < 0.3:
                     cfg["thr"] = rng.choice([0, -1])
+            elif rng.random() < 0.04:
+                cfg[rng.choice(["life_s", "idle_s"])] = 0      # a zero limit is "no limit" (falsy)
             top = 12 if (self.tier == "quick" or rng.random() < 0.7) else 40
             ln = rng.randint(1, top)
             ops = [self._rand_op(rng, malformed, cfg) for _ in range(ln)]
             if rng.random() < 0.5 and ops[0][0] not in ("start", "tick"):
                 ops[0] = ["start"] if rng.random() < 0.5 else ["tick", 1]
-            case = {"cfg": cfg, "ops": ops}
+            if rng.random() < 0.5:
+                ops = self._with_accessors(rng, ops)
+            case = {"cfg": cfg, "ops": ops, "drive": self._rand_drive(rng, len(ops))}
             if malformed:
                 case["malformed"] = True
             out.append(case)
@@ -350,88 +463,146 @@ class C09(Check):
         for cfg, depths, alphabet in plan:
             for d in depths:
                 for combo in itertools.product(alphabet, repeat=d):
-                    out.append({"cfg": dict(cfg), "ops": [list(o) for o in combo]})
+                    case = {"cfg": dict(cfg), "ops": [list(o) for o in combo]}
+                    if cfg is A:
+                        case["drive"] = {"silent": False, "cb_sen": True}
+                    out.append(case)
         return out
 
     # -- implementation ----------------------------------------------------
     def run_impl(self, case):
         import operon_ai.state.telomere as TM
         cfg = case["cfg"]
+        drive = case.get("drive") or {}
+        silent = drive.get("silent", True)
+        cb_phase = drive.get("cb_phase", True)
+        use_defaults = bool(drive.get("defaults"))
         saved = TM.datetime
         TM.datetime = VDatetime
         _Clock.t = 0
         stream = []
+        sen_calls = []
+        console = io.StringIO()
         try:
-            tel = TM.Telomere(max_operations=cfg["max_ops"],
-                              max_lifetime_hours=(cfg["life_s"] / 3600) if cfg.get("life_s") is not None else None,
-                              idle_timeout_minutes=(cfg["idle_s"] / 60) if cfg.get("idle_s") is not None else None,
-                              error_threshold=cfg["thr"], allow_renewal=cfg["renew"],
-                              on_phase_change=lambda a, b: stream.append((PH[a.value], PH[b.value])),
-                              silent=True)
+            # console output (silent=False) is captured; it is not an observation and must not change any
+            with contextlib.redirect_stdout(console):
+                kw = {}
+                if cb_phase:
+                    kw["on_phase_change"] = lambda a, b: stream.append((PH[a.value], PH[b.value]))
+                if drive.get("cb_sen"):
+                    kw["on_senescence"] = lambda r: sen_calls.append(REASON.get(r.value, 9))
+                if silent:
+                    kw["silent"] = True
+                elif not use_defaults:
+                    kw["silent"] = False        # (with `defaults` the constructor's own default, False, is used)
+                tel = TM.Telomere(max_operations=cfg["max_ops"],
+                                  max_lifetime_hours=(cfg["life_s"] / 3600) if cfg.get("life_s") is not None else None,
+                                  idle_timeout_minutes=(cfg["idle_s"] / 60) if cfg.get("idle_s") is not None else None,
+                                  error_threshold=cfg["thr"], allow_renewal=cfg["renew"], **kw)
 
-            def snap():
-                st = tel.get_statistics()
-                r = tel._senescence_reason
-                sa, la = tel._started_at, tel._last_activity
-                return [PH[tel.get_phase().value], st["telomere_length"], st["error_count"], st["operations_count"],
-                        st["renewal_count"], -1 if r is None else REASON.get(r.value, 9),
-                        -1 if sa is None else (sa - BASE) // US, -1 if la is None else (la - BASE) // US]
+                def snap():
+                    st = tel.get_statistics()
+                    r = tel._senescence_reason
+                    sa, la = tel._started_at, tel._last_activity
+                    return [PH[tel.get_phase().value], st["telomere_length"], st["error_count"], st["operations_count"],
+                            st["renewal_count"], -1 if r is None else REASON.get(r.value, 9),
+                            -1 if sa is None else (sa - BASE) // US, -1 if la is None else (la - BASE) // US]
 
-            life_us, idle_us = td_us(tel.max_lifetime), td_us(tel.idle_timeout)
-            obs = [[tel.max_operations, tel.error_threshold, int(bool(tel.allow_renewal)),
-                    -1 if life_us is None else life_us, -1 if idle_us is None else idle_us],
-                   [-1] + snap()]
-            steps = []
-            for o in case["ops"]:
-                kind = o[0]
-                before = snap()
-                t_before = _Clock.t
-                n0 = len(stream)
-                if kind == "adv":
-                    _Clock.t += o[1]
-                    fn = None
-                elif kind == "start":
-                    fn = tel.start
-                elif kind == "tick":
-                    fn = (lambda c=o[1]: tel.tick(c))
-                elif kind == "err":
-                    fn = tel.record_error
-                elif kind == "hb":
-                    fn = tel.heartbeat
-                elif kind == "check":
-                    fn = tel.check_timeouts
-                elif kind == "renew":
-                    fn = (lambda a=o[1], r=o[2]: tel.renew(a, r))
-                elif kind == "apop":
-                    fn = tel.trigger_apoptosis
-                elif kind == "term":
-                    fn = tel.terminate
-                elif kind == "reset":
-                    fn = tel.reset
-                else:
-                    raise ValueError(f"unknown op {o}")
-                rc = -1
-                raised = None
-                if fn is not None:
-                    try:
-                        # after repeated confirmed hangs the wait is shortened (a self-deadlock is deterministic)
-                        r = common.call_with_watchdog(fn, 2.0 if self.hangs_seen < 3 else (0.4 if self.hangs_seen < 10 else 0.15))
-                        rc = -1 if r is None else (1 if r is True else 0 if r is False else -3)
-                    except common.Hang:
-                        self.hangs_seen += 1
-                        obs.append([-999])
-                        steps.append({"op": o, "hang": True, "before": before, "t": t_before})
-                        break
-                    except ZeroDivisionError:
-                        rc, raised = -2, "ZeroDivisionError"
-                    except Exception as e:  # any other exception class
-                        rc, raised = -4, type(e).__name__
-                after = snap()
-                tr = stream[n0:]
-                obs.append([rc] + after + [x for p in tr for x in p])
-                steps.append({"op": o, "ret": rc, "raised": raised, "before": before, "after": after,
-                              "tr": list(tr), "t": _Clock.t})
-            return obs, {"steps": steps, "life_us": life_us, "idle_us": idle_us}
+                def logged_transitions(last_event):
+                    """the phase_change entries the public event log gained since `last_event` (an entry object; the
+                    log keeps the last 1000 entries and reset clears it, hence identity and not an index)"""
+                    evs = tel.get_events(1 << 30)
+                    k = 0
+                    for idx in range(len(evs) - 1, -1, -1):
+                        if evs[idx] is last_event:
+                            k = idx + 1
+                            break
+                    return [(PH[e.details["from"]], PH[e.details["to"]]) for e in evs[k:] if e.event_type == "phase_change"]
+
+                accessors = {"status": tel.get_status, "stats": tel.get_statistics, "phase": tel.get_phase,
+                             "active": tel.is_active, "operational": tel.is_operational, "age": tel.get_age,
+                             "events": tel.get_events, "events3": (lambda: tel.get_events(limit=3))}
+
+                life_us, idle_us = td_us(tel.max_lifetime), td_us(tel.idle_timeout)
+                obs = [[tel.max_operations, tel.error_threshold, int(bool(tel.allow_renewal)),
+                        -1 if life_us is None else life_us, -1 if idle_us is None else idle_us],
+                       [-1] + snap()]
+                steps = []
+                max_events = 0
+                for o in case["ops"]:
+                    kind = o[0]
+                    before = snap()
+                    t_before = _Clock.t
+                    n0 = len(stream)
+                    s0 = len(sen_calls)
+                    c0 = console.tell()
+                    last_event = None
+                    if not cb_phase:
+                        evs0 = tel.get_events(1)
+                        last_event = evs0[-1] if evs0 else None
+                    if kind == "adv":
+                        _Clock.t += o[1]
+                        fn = None
+                    elif kind == "q":
+                        fn = accessors[o[1]]
+                    elif kind == "start":
+                        fn = tel.start
+                    elif kind == "tick":
+                        fn = tel.tick if (use_defaults and o[1] == 1) else (lambda c=o[1]: tel.tick(c))
+                    elif kind == "err":
+                        fn = tel.record_error
+                    elif kind == "hb":
+                        fn = tel.heartbeat
+                    elif kind == "check":
+                        fn = tel.check_timeouts
+                    elif kind == "renew":
+                        if use_defaults and o[1] is None and o[2] is True:
+                            fn = tel.renew
+                        elif use_defaults and o[2] is True:
+                            fn = (lambda a=o[1]: tel.renew(amount=a))
+                        else:
+                            fn = (lambda a=o[1], r=o[2]: tel.renew(a, r))
+                    elif kind == "apop":
+                        fn = tel.trigger_apoptosis if use_defaults else (lambda: tel.trigger_apoptosis("requested by the harness"))
+                    elif kind == "term":
+                        fn = tel.terminate
+                    elif kind == "reset":
+                        fn = tel.reset
+                    else:
+                        raise ValueError(f"unknown op {o}")
+                    rc = -1
+                    raised = None
+                    if fn is not None:
+                        try:
+                            # a self-deadlock is deterministic and permanent: the first verdicts wait long enough that a
+                            # thread merely starved on a heavily loaded machine is not taken for one (2 s was observed to
+                            # expire spuriously once in ~600k calls at load average > 100); after repeated confirmed hangs
+                            # the wait is shortened
+                            r = common.call_with_watchdog(fn, 12.0 if self.hangs_seen < 3 else (0.4 if self.hangs_seen < 10 else 0.15))
+                            if kind != "q":
+                                rc = -1 if r is None else (1 if r is True else 0 if r is False else -3)
+                        except common.Hang:
+                            self.hangs_seen += 1
+                            obs.append([-999])
+                            steps.append({"op": o, "hang": True, "before": before, "t": t_before})
+                            break
+                        except ZeroDivisionError:
+                            rc, raised = -2, "ZeroDivisionError"
+                        except Exception as e:  # any other exception class
+                            rc, raised = -4, type(e).__name__
+                    after = snap()
+                    tr = stream[n0:] if cb_phase else logged_transitions(last_event)
+                    row = [rc] + after + [x for p in tr for x in p]
+                    if kind != "q":
+                        obs.append(row)
+                    elif after != before or tr or raised:
+                        # an accessor is not an operation of the model: anything it changes is a disagreement
+                        obs.append([-777] + row)
+                    max_events = max(max_events, tel.get_statistics()["events_count"])
+                    steps.append({"op": o, "ret": rc, "raised": raised, "before": before, "after": after,
+                                  "tr": list(tr), "t": _Clock.t, "sen": sen_calls[s0:],
+                                  "printed": console.getvalue()[c0:] if not silent else ""})
+                return obs, {"steps": steps, "life_us": life_us, "idle_us": idle_us, "max_events": max_events}
         finally:
             TM.datetime = saved
 
@@ -443,6 +614,8 @@ class C09(Check):
         ops = []
         for o in case["ops"]:
             k = o[0]
+            if k == "q":
+                continue        # read-only accessor: not an operation of the model (it must be transparent)
             if k == "adv":
                 ops.append(f"Advance {cz(o[1] * 1000000)}")
             elif k == "tick":
@@ -560,11 +733,31 @@ class C09(Check):
         ks.add(f"len={min(len(case['ops']), 13) if len(case['ops']) <= 12 else '13+'}")
         ks.add("renewal=" + ("on" if case["cfg"]["renew"] else "off"))
         ks.add("limits=" + ("L" if case["cfg"].get("life_s") else "-") + ("I" if case["cfg"].get("idle_s") else "-"))
+        drive = case.get("drive") or {}
+        ks.add("console=" + ("captured" if drive.get("silent", True) is False else "silent"))
+        ks.add("on_phase_change=" + ("supplied" if drive.get("cb_phase", True) else "none(event-log)"))
+        ks.add("on_senescence=" + ("supplied" if drive.get("cb_sen") else "none"))
+        if drive.get("defaults"):
+            ks.add("argument-defaults")
+        if trace.get("max_events", 0) >= 1000:
+            ks.add("event-log-at-cap")
+        ks.add("max_ops" + ("<10" if case["cfg"]["max_ops"] < 10 else "=10..12" if case["cfg"]["max_ops"] <= 12 else ">12"))
         for s in trace["steps"]:
             if s.get("hang"):
                 ks.add("hang")
                 continue
+            if s["op"][0] == "q":
+                ks.add("accessor=" + s["op"][1])
+                continue
             ks.add("op=" + s["op"][0])
+            if s["op"][0] == "tick" and s["before"][0] == A and s["after"][0] == S:
+                ks.add("depletion=" + ("length-0" if s["after"][1] <= 0 else "ratio<=0.1-with-length>0"))
+            if s.get("sen"):
+                ks.add("on_senescence-called")
+            if "Warning" in (s.get("printed") or ""):
+                ks.add("printed-warning")
+            if s.get("printed"):
+                ks.add("printed")
             ks.add("reached=" + PHN[s["after"][0]])
             for (x, y) in s["tr"]:
                 ks.add(f"trans={PHN[x]}->{PHN[y]}")
